@@ -37,6 +37,7 @@ void   sim_fill (void *p, size_t n);                /* bytes from the plan's mem
 enum { SIM_BUF_A = 0, SIM_BUF_B = 1, SIM_BUF_C = 2 };
 struct sim_conv {
     int armed;      /* a fault is attached to the current operation */
+    int at;         /* it hits the at-th call of ANY libidn2 conversion entry point made by the operation (1 = first) */
     int code;       /* libidn2-numbered code to return */
     int buf;        /* SIM_BUF_* */
     int fired;      /* the attached fault was delivered */
@@ -47,6 +48,7 @@ struct sim_conv {
 };
 extern struct sim_conv g_sim_conv;
 void sim_conv_begin (int armed, int code, int buf);
+void sim_conv_at (int at);
 /* raw: result not entered in the ledger; *fault set when the attached fault fired */
 int  sim_convert_raw (const char *in, char **out, int *fault, int flags /* <0: default */);
 /* malloc-style backends (libidn2, libidn): output is adopted by the ledger */
